@@ -26,6 +26,7 @@ type treeCase struct {
 	Files  map[string]string `json:"files"` // relative name -> hex content
 	Dirs   []string          `json:"dirs"`
 	Root   string            `json:"root"`
+	Outer  map[string]string `json:"outer,omitempty"` // decoy files placed in the parent of the project root
 	Banned []string          `json:"banned,omitempty"`
 	Mode   string            `json:"mode,omitempty"` // tree (default) | build
 }
@@ -208,9 +209,26 @@ func fileOracles(files map[string][]byte) []fileOracle {
 }
 
 func setupProject(tc *treeCase) (root string, files map[string][]byte, err error) {
-	root, err = os.MkdirTemp("", "vh")
+	outer, err := os.MkdirTemp("", "vh")
 	if err != nil {
 		return "", nil, err
+	}
+	root = filepath.Join(outer, "proj")
+	if err := os.MkdirAll(root, 0o755); err != nil {
+		return root, nil, err
+	}
+	for n, h := range tc.Outer {
+		data, err := hex.DecodeString(h)
+		if err != nil {
+			return root, nil, err
+		}
+		p := filepath.Join(outer, filepath.FromSlash(n))
+		if err := os.MkdirAll(filepath.Dir(p), 0o755); err != nil {
+			return root, nil, err
+		}
+		if err := os.WriteFile(p, data, 0o644); err != nil {
+			return root, nil, err
+		}
 	}
 	files = map[string][]byte{}
 	for _, d := range tc.Dirs {
@@ -240,7 +258,7 @@ func treeOne(tc *treeCase) (out treeOut) {
 	out.Dirs, out.Roots, out.Macros, out.Expanded, out.Enums = []string{}, []string{}, []string{}, []string{}, []string{}
 	root, files, err := setupProject(tc)
 	if root != "" {
-		defer os.RemoveAll(root)
+		defer os.RemoveAll(filepath.Dir(root))
 	}
 	if err != nil {
 		out.Scan = "setup-error: " + err.Error()
@@ -259,6 +277,10 @@ func treeOne(tc *treeCase) (out treeOut) {
 		}
 	}()
 	rootPath := filepath.Join(root, filepath.FromSlash(tc.Root))
+	if os.Getenv("VERIF_MARKERS") != "" {
+		_, _ = os.Stat("/verif-mark-begin-" + tc.ID + "-" + hx(root))
+		defer func() { _, _ = os.Stat("/verif-mark-end-" + tc.ID) }()
+	}
 	c := core.NewJApiCore(fs.NewFile(rootPath, files[tc.Root]))
 	if je := c.VerifScanProject(); je != nil {
 		out.Scan = "err"
